@@ -26,8 +26,8 @@ ASSUMPTIONS = [
     "an unchanged %rewrite unit is absent from the diff by design: the projection law is evaluated modulo such units",
     "order is compared inside %ordered groups only (call_diff_logic concatenates groups)",
 ]
-FLOORS = {"quick": {"diffs_compared": 3000, "moved_entries": 200, "rewrite_units_changed": 50, "text_views_checked": 3000, "self_diffs": 1000, "ignore_case_rulebooks": 400, "acl_diffs_compared": 600, "removals_of_not_deletable_rows": 100},
-          "thorough": {"diffs_compared": 150000, "moved_entries": 10000, "rewrite_units_changed": 2500, "text_views_checked": 150000, "self_diffs": 50000, "ignore_case_rulebooks": 15000, "acl_diffs_compared": 25000, "removals_of_not_deletable_rows": 4000}}
+FLOORS = {"quick": {"diffs_compared": 3000, "moved_entries": 200, "rewrite_units_changed": 50, "text_views_checked": 3000, "self_diffs": 1000, "ignore_case_rulebooks": 400, "acl_diffs_compared": 600, "removals_of_not_deletable_rows": 100, "big_blocks_compared": 120},
+          "thorough": {"diffs_compared": 150000, "moved_entries": 10000, "rewrite_units_changed": 2500, "text_views_checked": 150000, "self_diffs": 50000, "ignore_case_rulebooks": 15000, "acl_diffs_compared": 25000, "removals_of_not_deletable_rows": 4000, "big_blocks_compared": 5000}}
 VENDORS = ["huawei", "h3c", "optixtrans", "cisco", "nexus", "iosxr", "arista", "b4com", "pc", "juniper", "ribbon", "nokia"]
 BRACE = {"juniper", "ribbon", "nokia"}
 
@@ -357,7 +357,53 @@ def check_acl_case(seed, acc):
                       dict(w, expected=RD.canon(RD.strip(exp)), got=RD.canon(RD.strip(got))))
 
 
+def check_big_block(seed, acc):
+    """one block holding hundreds of rows (long ACLs, prefix lists, explicit paths): the laws do not depend on the size"""
+    from annet.annlib.patching import make_diff, strip_unchanged
+    from collections import OrderedDict as odict
+    rng = random.Random(seed)
+    vname = rng.choice(["huawei", "cisco", "arista"])
+    ordered = rng.random() < 0.7
+    rules = [RB.Rule("acl *", children=[RB.Rule("rule ~", ordered=ordered)]), RB.Rule("x *")]
+    text = RB.render(rules)
+    n = rng.choice([40, 200, 258, 300, 600])
+    rows = ["rule %d permit ip source 10.%d.%d.0" % (i, i // 250, i % 250) for i in range(n)]
+    old = odict([("acl k1", odict((r, odict()) for r in rows)), ("x k1", odict())])
+    kind = rng.choice(["same", "append", "insert", "drop", "swap"])
+    nr = list(rows)
+    pos = rng.randrange(n)
+    if kind == "append":
+        nr.append("rule 9999 deny ip")
+    elif kind == "insert":
+        nr.insert(pos, "rule 9999 deny ip")
+    elif kind == "drop":
+        del nr[pos]
+    elif kind == "swap" and n > 1:
+        q = (pos + 1) % n
+        nr[pos], nr[q] = nr[q], nr[pos]
+    new = odict([("acl k1", odict((r, odict()) for r in nr)), ("x k1", odict())])
+    po, pn = plain(old), plain(new)
+    w = {"seed": seed, "big": True, "vendor": vname, "rulebook": text, "rows": n, "ordered": ordered, "edit": kind, "position": pos}
+    try:
+        rb = c01.compile_rb(text, vname)
+        d = make_diff(old, new, rb, [])
+    except Exception as e:
+        acc.violation("C03/exception/%s" % type(e).__name__, "make_diff raised on a large block", dict(w, error=repr(e)[:300]))
+        return
+    acc.count("big_blocks_compared")
+    acc.case(["big", vname, n, ordered, kind, pos], nontrivial=(kind != "same"))
+    l, g = RB.split_level(rules)
+    ref = RD.mark_unchanged(RD.diff(po, pn, l, g))
+    got = norm(d)
+    if RD.canon(ref) != RD.canon(got):
+        gs, rs = RD.canon(RD.strip(got)), RD.canon(RD.strip(ref))
+        acc.violation("C03/differs-from-reference-diff", "operations/nesting of the diff differ from the reference (MOVED iff preceding sequence differs; rewrite units; UNCHANGED marking)",
+                      dict(w, expected_entries=sum(1 for _ in RD._walk(rs)), got_entries=sum(1 for _ in RD._walk(gs)), expected_head=rs[:2], got_head=[[e[0], e[1], e[2][:3]] for e in gs[:2]]))
+
+
 def run_shard(spec, acc):
+    if spec["mode"] == "replay" and spec["witness"].get("big"):
+        return check_big_block(spec["witness"]["seed"], acc)
     if spec["mode"] == "replay":
         if spec["witness"].get("acl_case"):
             check_acl_case(spec["witness"]["seed"], acc)
@@ -375,3 +421,5 @@ def run_shard(spec, acc):
             check_case(rng.randrange(1 << 48), acc, icase=True)
         if j % 5 == 2:
             check_acl_case(rng.randrange(1 << 48), acc)
+        if j % 25 == 3:
+            check_big_block(rng.randrange(1 << 48), acc)
